@@ -447,6 +447,11 @@ func (e *Engine) loadPath(st *State, r *Region, path []int, t types.Type) Value 
 	if tv, ok := v.(*Term); ok && len(st.subst) > 0 {
 		return st.sub(tv)
 	}
+	if sv, ok := v.(*SliceVal); ok && sv.reg != nil && len(st.subst) > 0 {
+		n := *sv
+		n.off, n.length, n.capacity = st.sub(sv.off), st.sub(sv.length), st.sub(sv.capacity)
+		return &n
+	}
 	return v
 }
 
@@ -1503,6 +1508,9 @@ func (e *Engine) execFrom(st *State, fr *Frame, b *ssa.BasicBlock, prev *ssa.Bas
 						st2 := st.fork()
 						fr2 := fr.fork()
 						st.assume(fl.cond)
+						for _, h := range fl.thenAssume {
+							st.assume(h)
+						}
 						st2.assume(mkNot(fl.cond))
 						fr.vals[v] = fl.a
 						fr2.vals[v] = fl.b
@@ -1798,8 +1806,9 @@ func (e *Engine) indexAddr(st *State, fr *Frame, in *ssa.IndexAddr) Value {
 
 // forkLoad: a load whose result depends on a condition that must be path-split (aliased family element)
 type forkLoad struct {
-	cond *Term
-	a, b Value
+	cond       *Term
+	a, b       Value
+	thenAssume []*Term // assumed in the branch where cond holds
 }
 
 // splitPtr marks a pointer whose index must be case-split (array of aggregates).
@@ -1918,7 +1927,18 @@ func (e *Engine) typeAssert(st *State, fr *Frame, in *ssa.TypeAssert) Value {
 		ok = tFalse
 		val = e.zeroValue(in.AssertedType)
 	} else {
-		e.fail("type assertion on interface of unknown dynamic type in %s", fr.fn)
+		// unknown dynamic type: either it is the asserted type (a fresh symbolic object of that type,
+		// with its type invariants) or it is not
+		if !in.CommaOk {
+			e.fail("type assertion (panicking form) on interface of unknown dynamic type in %s", fr.fn)
+		}
+		c := mkVar(e.freshName("istype"), SBool)
+		val2 := e.makeParamValue(st, e.freshName("asserted"), in.AssertedType, -1, 0)
+		var invs []*Term
+		for _, inv := range e.invariantsOfValue(st, val2, in.AssertedType, "asserted") {
+			invs = append(invs, inv.t)
+		}
+		return &forkLoad{cond: c, a: &TupleVal{elems: []Value{val2, tTrue}}, b: &TupleVal{elems: []Value{e.zeroValue(in.AssertedType), tFalse}}, thenAssume: invs}
 	}
 	if in.CommaOk {
 		return &TupleVal{elems: []Value{val, ok}}
